@@ -49,8 +49,10 @@ type LockInfo struct {
 // A ManagedLock is a lock with a some record keeping fields for
 // garbage collection
 type ManagedLock struct {
-	Name         string
-	lastAccessed time.Time
+	Name string
+	// Time of the last Manager call that used this lock. It is written by getLock() with the shard
+	// only read-locked (concurrent calls on the same lock), so it is an atomic value.
+	lastAccessed atomic.Pointer[time.Time]
 	deleted      bool
 	// Number of Manager calls currently using this lock. It is incremented by getLock() while the
 	// shard is locked and is checked by lockGc() with the shard write-locked, so a lock that is
@@ -61,11 +63,18 @@ type ManagedLock struct {
 
 // NewManagedLock returns a managed lock object with the given name
 func NewManagedLock(name string, ctx context.Context, size int32) *ManagedLock {
-	return &ManagedLock{
-		Name:         name,
-		lastAccessed: time.Now(),
-		Lock:         NewLock(ctx, size),
+	l := &ManagedLock{
+		Name: name,
+		Lock: NewLock(ctx, size),
 	}
+	l.touch()
+	return l
+}
+
+// touch records that the lock is being used now
+func (l *ManagedLock) touch() {
+	now := time.Now()
+	l.lastAccessed.Store(&now)
 }
 
 // A lock shard is a shard of managed locks
@@ -185,7 +194,7 @@ func (m *Manager) getLock(name string, create bool, size int32) (*ManagedLock, e
 		}
 
 		// Existing lock found
-		l.lastAccessed = time.Now()
+		l.touch()
 		l.users.Add(1)
 		return l, nil
 
@@ -284,7 +293,7 @@ func (m *Manager) lockGc(minIdle time.Duration) {
 
 		for _, v := range shard.locks {
 			v.lockKeys()
-			if len(v.keys) == 0 && v.users.Load() == 0 && time.Since(v.lastAccessed) > minIdle {
+			if len(v.keys) == 0 && v.users.Load() == 0 && time.Since(*v.lastAccessed.Load()) > minIdle {
 				v.deleted = true
 				delete(shard.locks, v.Name)
 				numDeleted++
@@ -311,7 +320,7 @@ func (m *Manager) Locks() []LockInfo {
 				shardLocks[idx] = LockInfo{
 					Name:         name,
 					Keys:         strings.Join(keys, ", "),
-					LastAccessed: l.lastAccessed,
+					LastAccessed: *l.lastAccessed.Load(),
 					Locked:       len(keys) > 0,
 				}
 				idx++
